@@ -1,0 +1,7 @@
+//go:build !verif
+
+package sample
+
+import "github.com/cronokirby/saferith"
+
+func verifPrimes() (p, q *saferith.Nat) { return nil, nil }
